@@ -325,7 +325,7 @@ fn judge_changes(op: Op, hostile: &str, changes: &[String], upload_id: &str) -> 
 
 /// (iii) Histories of *legitimate* operations. One operation at a time from a fixed store cannot see a fault that a previous
 /// operation prepared (two paths sharing one inode, a stale bookkeeping file): all sequences of `depth` operations over
-/// {put, delete, copy} x {bucket-a, bucket-b} x {a, secret, fresh} run on one live tree (never re-materialised inside a
+/// {put, delete, copy} x {bucket-a, bucket-b} x {a, secret, fresh, fresh/in} run on one live tree (never re-materialised inside a
 /// sequence, so what the file system shares stays shared), and after EVERY step the tree may differ from the step before only
 /// inside the bucket the operation is addressed to (a copy: its destination) and in that bucket's own bookkeeping files.
 fn histories(acc: &mut Acc, depth: usize) -> usize {
@@ -335,7 +335,7 @@ fn histories(acc: &mut Acc, depth: usize) -> usize {
         Delete(&'static str, &'static str),
         Copy(&'static str, &'static str, &'static str, &'static str),
     }
-    let slots: Vec<(&'static str, &'static str)> = ["bucket-a", "bucket-b"].into_iter().flat_map(|b| ["a", "secret", "fresh"].into_iter().map(move |k| (b, k))).collect();
+    let slots: Vec<(&'static str, &'static str)> = ["bucket-a", "bucket-b"].into_iter().flat_map(|b| ["a", "secret", "fresh", "fresh/in"].into_iter().map(move |k| (b, k))).collect(); // ("fresh/in" makes "fresh" a directory: operations on "fresh" then FAIL half-way, and a failure path must keep to its bucket too)
     let mut ops: Vec<H> = Vec::new();
     for &(b, k) in &slots {
         ops.push(H::Put(b, k, b"HISTORY-PUT-1"));
@@ -533,7 +533,7 @@ pub fn run(ctx: &Ctx) -> (Acc, Report) {
     let concurrent = if ctx.replay.as_deref().is_none_or(|r| r.contains("/schedule=")) { crate::props::c19::cross_object_schedules(&mut acc, "C17") } else { 0 };
     let rep = Report {
         level: "exploration",
-        rule: format!("{n_keys} hostile strings (all sequences of 1..3 segments (thorough: also all 4-segment sequences over the 7 core symbols) over {{a, ., .., empty, bucket-b, bucket-a2, secret, the real metadata file name of another bucket's object, %2e%2e, %2f, outside, sentinel.txt}} joined by '/', with and without a leading '/', plus 4 deep escapes) x 22 operations at the S3 trait (object get/head/put/delete/delete-objects/copy source/copy destination/list prefix/create-multipart/upload-part-copy source/put-then-get-then-delete; legitimate cross-bucket copies - from another bucket's plain or metadata-bearing object to the string as destination key, and from the string as source key in the other bucket by CopyObject and UploadPartCopy - where the source bucket may be read but neither it nor its bookkeeping may change; hostile upload ids for list-parts/complete/abort/upload-part by a foreign identity incl. the victim's real id and its 8-character prefix; hostile bucket names for create/delete/head bucket), and through S3Service::call for GET/PUT/DELETE/copy in literal, fully percent-encoded and %2e%2e spellings; store: three buckets with marked objects and metadata (one sibling's name has the addressed bucket's name as a proper string prefix), one foreign open upload with a marked part, a marked sentinel tree beside and above the root. Oracle: whole-tree snapshot diff (contents and hard-link groups) + marker search in everything read back. Plus all histories of 2 (thorough 3) legitimate put / delete / copy operations across two buckets, judged after every step. Plus every interleaving of two concurrent writers to different objects (same key in two buckets, same file name in two directories, two keys of one bucket). Distinct by id."),
+        rule: format!("{n_keys} hostile strings (all sequences of 1..3 segments (thorough: also all 4-segment sequences over the 7 core symbols) over {{a, ., .., empty, bucket-b, bucket-a2, secret, the real metadata file name of another bucket's object, %2e%2e, %2f, outside, sentinel.txt}} joined by '/', with and without a leading '/', plus 4 deep escapes) x 22 operations at the S3 trait (object get/head/put/delete/delete-objects/copy source/copy destination/list prefix/create-multipart/upload-part-copy source/put-then-get-then-delete; legitimate cross-bucket copies - from another bucket's plain or metadata-bearing object to the string as destination key, and from the string as source key in the other bucket by CopyObject and UploadPartCopy - where the source bucket may be read but neither it nor its bookkeeping may change; hostile upload ids for list-parts/complete/abort/upload-part by a foreign identity incl. the victim's real id and its 8-character prefix; hostile bucket names for create/delete/head bucket), and through S3Service::call for GET/PUT/DELETE/copy in literal, fully percent-encoded and %2e%2e spellings; store: three buckets with marked objects and metadata (one sibling's name has the addressed bucket's name as a proper string prefix), one foreign open upload with a marked part, a marked sentinel tree beside and above the root. Oracle: whole-tree snapshot diff (contents and hard-link groups) + marker search in everything read back. Plus all histories of 2 (thorough 3) legitimate put / delete / copy operations across two buckets (keys a, secret, fresh and fresh/in - the last turns 'fresh' into a directory, so that operations fail half-way), judged after every step. Plus every interleaving of two concurrent writers to different objects (same key in two buckets, same file name in two directories, two keys of one bucket). Distinct by id."),
         exhaustive: true,
         extra: json!({"hostile_strings": n_keys, "concurrent_writer_schedules": concurrent, "histories_of_legitimate_operations": n_histories, "history_rule": "all sequences of 2 (thorough 3) operations over {put, delete, copy} x {bucket-a, bucket-b} x {a, secret, fresh} (48 operations) on one live tree; after every step the tree differs from the step before only inside the addressed bucket (a copy: its destination) and its own bookkeeping files; snapshots record which paths share an inode"}),
         assumptions: vec!["symbolic links inside the root are not part of the space".into(), "file contents, not mtimes, are compared".into()],
